@@ -11,31 +11,36 @@
 (* Trace.tla (which judges recorded executions) share one definition.      *)
 (***************************************************************************)
 EXTENDS Integers, Sequences
-L == 4
+CONSTANT
+  \* @type: Int;
+  L          \* number of chunks of the rendering (4 in every TLC configuration; arbitrary in the Apalache proof FileInd.tla)
 CreateFaults == {"ENOENT", "EISDIR", "ENOTDIR", "EROFS", "ENAMETOOLONG", "ELOOP"}
 WriteFaults == {"ENOSPC", "EFBIG"}
 Classes == {"none"} \cup CreateFaults \cup WriteFaults
+\* @type: { phase: Str, written: Int, ret: Str };
 F_Init == [phase |-> "start", written |-> -1, ret |-> "none"]
 \* File::create: fails for a create-time class and leaves no (new) file, otherwise creates / truncates
+\* @type: ({ phase: Str, written: Int, ret: Str }, Str) => { phase: Str, written: Int, ret: Str };
 F_Create(fs, fault) == IF fault \in CreateFaults THEN [fs EXCEPT !.phase = "create_failed"]
                        ELSE [fs EXCEPT !.phase = "writing", !.written = 0]
 \* write_all, one chunk: a write-time fault strikes exactly when `off` chunks are on disk
+\* @type: ({ phase: Str, written: Int, ret: Str }, Str, Int) => { phase: Str, written: Int, ret: Str };
 F_Write(fs, fault, off) == IF fault \in WriteFaults /\ fs.written = off THEN [fs EXCEPT !.phase = "write_failed"]
                            ELSE [fs EXCEPT !.written = fs.written + 1]
+\* @type: ({ phase: Str, written: Int, ret: Str }) => { phase: Str, written: Int, ret: Str };
 F_ReturnOk(fs) == [fs EXCEPT !.phase = "done", !.ret = "Ok"]
+\* @type: ({ phase: Str, written: Int, ret: Str }) => { phase: Str, written: Int, ret: Str };
 F_ReturnErr(fs) == [fs EXCEPT !.phase = "done", !.ret = "Err"]
+\* @type: ({ phase: Str, written: Int, ret: Str }, Str, Int) => { phase: Str, written: Int, ret: Str };
 F_Step(fs, fault, off) ==
   CASE fs.phase = "start" -> F_Create(fs, fault)
     [] fs.phase = "writing" /\ fs.written < L -> F_Write(fs, fault, off)
     [] fs.phase = "writing" /\ fs.written = L -> F_ReturnOk(fs)
     [] fs.phase \in {"create_failed", "write_failed"} -> F_ReturnErr(fs)
     [] OTHER -> fs
-\* the complete call (at most L + 3 steps)
-F_Run(fault, off) == LET RECURSIVE go(_, _)
-                         go(fs, n) == IF fs.phase = "done" \/ n = 0 THEN fs ELSE go(F_Step(fs, fault, off), n - 1)
-                     IN go(F_Init, L + 4)
 Struck(fault, off) == fault \in CreateFaults \/ (fault \in WriteFaults /\ off < L)
 \* abstraction of a byte limit on a rendering of `len` bytes to a chunk offset
 AbsOff(limit, len) == IF limit >= len THEN L ELSE IF limit = 0 THEN 0 ELSE IF limit = 1 THEN 1 ELSE IF limit < len - 1 THEN 2 ELSE 3
+\* @type: ({ phase: Str, written: Int, ret: Str }) => Str;
 FileClass(fs) == IF fs.written = -1 THEN "absent" ELSE IF fs.written = L THEN "equal" ELSE "prefix"
 =============================================================================
